@@ -291,7 +291,7 @@ def current_env():
 
 
 def secondary_start(prop, tier, base_seed, n, budget, workers):
-    """The same first worlds once more in another process environment: `python -O` (assert statements and their side
+    """The same first worlds once more in another process environment: `python -O -bb` (bytes/str comparisons are errors; assert statements and their side
     effects compiled away) and another local time zone.  Started next to the primary search; (Popen, time zone)."""
     n2 = max(1, n // 6)
     b2 = max(6.0, min(budget * 0.3, 12.0 if tier == 'quick' else 150.0))
@@ -619,11 +619,11 @@ def main(argv=None):
                 if line.startswith(('violation:', 'minimised', 'note:')):
                     print(line)
             m = re.search(r'^VIOLATION property=%s replay=(\S+)' % prop, out2, re.M)
-            print('the violation was found in the secondary pass (python -O, TZ=%s)' % tz2)
+            print('the violation was found in the secondary pass (python -O -bb, TZ=%s)' % tz2)
             print('VIOLATION property=%s replay=%s' % (prop, m.group(1) if m else '?'))
             return 1
         if rc2 != 0:
-            print('HARNESS-ERROR property=%s secondary pass (python -O, TZ=%s) exited %d\n%s' % (prop, tz2, rc2, out2[-3000:]))
+            print('HARNESS-ERROR property=%s secondary pass (python -O -bb, TZ=%s) exited %d\n%s' % (prop, tz2, rc2, out2[-3000:]))
             return 2
     zero = sorted(k for k in getattr(profile, 'EXPECTED_PROBES', []) if not tot['probes'].get(k))
     for k in zero:
@@ -653,7 +653,7 @@ def main(argv=None):
                 'stopped_on_budget': stopped_early, 'workers': a.workers,
                 'exhaustive': False,
                 'environment': dict(current_env(), note='local time zone chosen by the seed; a secondary pass re-runs the first '
-                                    'worlds under python -O in another zone'),
+                                    'worlds under python -O -bb in another zone'),
                 'secondary_pass': secondary,
                 'process_history': 'worlds run in batches of %d, each batch in a fresh process: a world meets the library state '
                                    'left by the earlier worlds of its batch (violations that need such a history are replayed '
